@@ -43,7 +43,7 @@ PK_NAMES = ("id", "node_id", "dataset_name", "id_code")
 
 
 def streams(ctx):
-    return [("random", ctx.scale(500, 6000))]
+    return [("random", ctx.scale(3000, 12000))]
 
 
 def gen_case(ctx, stream, idx):
